@@ -235,7 +235,19 @@ def rule_A4(ctx, rid='A4'):
                 uses = [st for st in walk_no_nested(f.node) if isinstance(st, ast.Assign) and
                         isinstance(st.targets[0], ast.Subscript) and cfg.has(st) and
                         cfg.has_fact(cfg.node_of(st).id, '%s.cube is None' % selfn, False)]
-            ctx.require(uses, 'UnitCubeEllipsoidMixture.%s: use of %s not found' % (meth, comp))
+            if not uses:
+                # the component is consulted by the sibling methods but not here
+                others = [m2 for m2 in ('contains', 'sample') if m2 != meth and any(
+                    isinstance(c, ast.Call) and isinstance(c.func, ast.Attribute) and
+                    dotted(c.func.value) == '%s.%s' % (selfn, comp)
+                    for c in walk_no_nested(prog.func('UnitCubeEllipsoidMixture.' + m2).node))]
+                ctx.require(others, 'UnitCubeEllipsoidMixture.%s: use of %s not found'
+                            % (meth, comp))
+                n += 1
+                ctx.ob(rid, 'UnitCubeEllipsoidMixture.%s:%s-columns' % (meth, comp), False,
+                       f.where(), '%s() consults the %s for its columns but %s() does not: the '
+                       'two methods describe different regions' % (others[0], comp, meth))
+                continue
             for u in uses:
                 nid = cfg.node_of(u).id
                 st = cfg.nodes[nid].ast
@@ -265,6 +277,47 @@ def rule_A4(ctx, rid='A4'):
                            comp, '~dim_cube' if want_neg else 'dim_cube', comp) if ok else
                        'the %s is paired with column polarity %s (expected %s) / presence guard '
                        '%s' % (comp, sorted(pol), want_neg, g_ok))
+    # contains() is the conjunction of the component tests and of nothing else: any further
+    # narrowing would have to be enforced by sample() as well
+    f = prog.func('UnitCubeEllipsoidMixture.contains')
+    selfn = f.self_name
+    rets = [r for r in walk_no_nested(f.node) if isinstance(r, ast.Return) and
+            isinstance(r.value, ast.Name)]
+    if rets:
+        mname = rets[0].value.id
+        extra = []
+
+        def operands(e):
+            if isinstance(e, ast.BinOp) and isinstance(e.op, ast.BitAnd):
+                return operands(e.left) + operands(e.right)
+            return [e]
+        for st in walk_no_nested(f.node):
+            v = None
+            if isinstance(st, ast.Assign) and isinstance(st.targets[0], ast.Name) and \
+                    st.targets[0].id == mname:
+                v = st.value
+            elif isinstance(st, ast.AugAssign) and isinstance(st.target, ast.Name) and \
+                    st.target.id == mname and isinstance(st.op, ast.BitAnd):
+                v = st.value
+            if v is None:
+                continue
+            for o in operands(v):
+                if isinstance(o, ast.Name) and o.id == mname:
+                    continue
+                if isinstance(o, ast.Call) and dotted(o.func) in ('np.ones', 'np.full') :
+                    continue
+                if isinstance(o, ast.Call) and isinstance(o.func, ast.Attribute) and \
+                        o.func.attr == 'contains' and dotted(o.func.value) in (
+                            '%s.cube' % selfn, '%s.ellipsoid' % selfn):
+                    continue
+                extra.append(o)
+        n += 1
+        ctx.ob(rid, 'UnitCubeEllipsoidMixture.contains:only-component-tests', not extra,
+               f.where(extra[0]) if extra else f.where(),
+               'the mask is the conjunction of the cube test and the ellipsoid test' if not extra
+               else 'contains() also demands `%s`, which sample() does not enforce: sample() '
+               'can return points that contains() of the same bound rejects'
+               % unparse(extra[0])[:60])
     return n
 
 
